@@ -3,7 +3,7 @@
 (* S2 at column level (C02, C13; namings for C08; C16 uses its positions). *)
 (* A behaviour BUILDS one data-moving statement in a few steps; the        *)
 (* finished state is a program:                                            *)
-(*   Start(kind)            insert | insert_cols | ctas | update            *)
+(*   Start(kind)            insert | insert_cols | ctas | update | merge    *)
 (*   AddTbl(schema, name, alias)     a table in the FROM scope              *)
 (*   AddSub(alias, schema, name, inner)  a derived table over one table;   *)
 (*                          inner = its select list: Seq of [col, alias]   *)
@@ -101,7 +101,10 @@ Finish == /\ phase = "items" /\ Len(items) >= 1
                /\ (cl # <<>> <=> kind = "insert_cols")
                \* UPDATE tgt SET name = expression, ... FROM relations: one assignment per item, named by the item; references
                \* are qualified (unqualified, the target's own columns would be in scope too)
-               /\ (kind = "update" => /\ ~HasStar /\ branch2 = <<>> /\ ~t
+               \* MERGE INTO tgt USING relation ON .. WHEN MATCHED THEN UPDATE SET name = expression, ..
+               \*   WHEN NOT MATCHED THEN INSERT (names) VALUES (expressions): one source relation, the same assignments in both arms
+               /\ (kind = "merge" => Len(rels) = 1)
+               /\ (kind \in {"update", "merge"} => /\ ~HasStar /\ branch2 = <<>> /\ ~t
                                       /\ \A j \in DOMAIN items, m \in 1..2 : m <= Len(items[j].refs) => items[j].refs[m].r \in 1..Len(rels))
                /\ (kind = "insert_cols" => ~HasStar)
                \* the provider may know the target table (written schema-qualified then): as many columns as the statement has items
